@@ -57,7 +57,7 @@ func mkSpec(kind string, params any) explore.Spec {
 }
 
 func deadlineFor(tier string) time.Duration {
-	secs := 150.0
+	secs := 300.0
 	if tier == "thorough" {
 		secs = 6000
 	}
